@@ -399,4 +399,179 @@ theorem rt_parseRegularQuantity (q : AQty) (p : QPad) (s : BP α) (hq : q.ok s.c
       get, getThe, MonadStateOf.get, StateT.get, ht2, Bool.false_eq_true, if_false, tokensSpanP_run _ _ hne]
     exact ⟨vspan, lspan, _, _, rfl, hl, by simp only [Option.map_some, ht1], rfl⟩
 
+/-! ### the advanced form (ADVANCED_UNITS) declines what `spellQty` writes -/
+
+theorem rt_lock_then_ws (q : AQty) (p : QPad) (s : BP α) (hpl0 : padOK s.cs p.l0 = true)
+    (L pre : List Tok) (h : Tok) (R : List Tok) (ht : s.toks = L ++ (pre ++ h :: R)) (hc : s.cur = 0)
+    (hL : Spells L (spellLock q.lock p)) (bpre : ∀ t ∈ pre, BlankT t)
+    (hhb : isWsComment h.kind = false) (hne : h.kind ≠ .eq) :
+    ∃ l c1 B, scalingLock s = (l, { s with cur := c1 }) ∧
+      wsComments ({ s with cur := c1 } : BP α) = (B, { s with cur := (L ++ pre).length }) := by
+  cases hlock : q.lock with
+  | true =>
+    rw [hlock] at hL
+    simp only [spellLock, if_true] at hL
+    obtain ⟨l0, r1, rfl, hl0, hteq⟩ := hL.append_inv
+    obtain ⟨teq, rfl, hteqk, -⟩ := hteq.single_inv
+    simp only [tk] at hteqk
+    have bl0 := padOK_blank (hl0.padOK_of hpl0)
+    have h1 := scalingLock_lock s l0 teq (pre ++ h :: R) (by rw [ht]; simp) hc bl0 hteqk
+    have h2 := consumeWhile_split isWsComment ({ s with cur := l0.length + 1 } : BP α)
+      (l0 ++ [teq]) pre (h :: R) (by simpa using ht) (by simp) (fun t ht' => bpre t ht')
+      (by intro t ht'; simp at ht'; subst ht'; exact hhb)
+    refine ⟨_, _, pre, h1, ?_⟩
+    unfold wsComments
+    rw [h2]; simp only [List.length_append]
+  | false =>
+    rw [hlock] at hL
+    simp only [spellLock, Bool.false_eq_true, if_false] at hL
+    have hLn := hL.nil_inv
+    subst hLn
+    have h1 := scalingLock_nolock s pre h R (by rw [ht]; simp) hc bpre hhb hne
+    have h2 := consumeWhile_split isWsComment ({ s with cur := pre.length } : BP α)
+      pre [] (h :: R) (by simpa using ht) rfl (by simp)
+      (by intro t ht'; simp at ht'; subst ht'; exact hhb)
+    refine ⟨_, _, [], h1, ?_⟩
+    unfold wsComments
+    rw [h2]; simp
+
+theorem rt_lock_kinds {cs : CharSpec} {q : AQty} {p : QPad} (hpl0 : padOK cs p.l0 = true) {L : List Tok}
+    (hL : Spells L (spellLock q.lock p)) : ∀ t ∈ L, t.kind ≠ .percent := by
+  intro t ht
+  obtain ⟨u, hu, hk, -⟩ := hL.mem ht
+  rw [hk]
+  unfold spellLock at hu
+  split at hu
+  · simp only [List.mem_append, List.mem_singleton] at hu
+    rcases hu with hu | hu
+    · rcases padOK_padT hpl0 u hu with h | h <;> simp [h]
+    · subst hu; simp [tk]
+  · simp at hu
+
+theorem rt_parseAdvancedQuantity_none (q : AQty) (p : QPad) (s : BP α) (hq : q.ok s.cs = true)
+    (hp : p.ok s.cs = true) (hadv : q.advSafe = true)
+    (ts : List Tok) (hs : Spells ts (spellQty q p)) (ht : s.toks = ts) (hc : s.cur = 0) :
+    ∃ c, parseAdvancedQuantity s = (none, { s with cur := c }) := by
+  obtain ⟨L, pre, M, post, U, hts, hL, hpre, hM, hpost, hU⟩ := rt_qty_decomp hs
+  subst ht
+  have hq' := hq
+  simp only [AQty.ok, Bool.and_eq_true] at hq'
+  have hp' := hp
+  simp only [QPad.ok, Bool.and_eq_true] at hp'
+  obtain ⟨⟨⟨hpl0, hpv⟩, hpu0⟩, hpu1⟩ := hp'
+  obtain ⟨bpre, bpost, hVk, h, r, hMh, hhb, hhk⟩ := rt_val_facts hq'.1 hpv hpre hM hpost
+  unfold parseAdvancedQuantity
+  simp only [bind, StateT.bind, allToks, get, getThe, MonadStateOf.get, StateT.get, pure, StateT.pure]
+  cases hu : q.unit with
+  | some u =>
+    rw [hu] at hU
+    simp only [spellUnit, List.append_assoc, List.cons_append, List.nil_append] at hU
+    obtain ⟨tpct, UR, rfl, hpk, -, hUR⟩ := hU.cons_inv
+    simp only [tk] at hpk
+    have : s.toks.any (fun t => t.kind == .percent) = true := by
+      rw [hts]; simp [hpk]
+    simp only [this, if_true]
+    exact ⟨s.cur, rfl⟩
+  | none =>
+    rw [hu] at hU
+    simp only [spellUnit] at hU
+    have hUn := hU.nil_inv
+    subst hUn
+    simp only [List.append_nil] at hts
+    have hany : s.toks.any (fun t => t.kind == .percent) = false := by
+      rw [hts, List.any_eq_false]
+      intro t ht
+      rcases List.mem_append.mp ht with ht | ht
+      · simpa using rt_lock_kinds hpl0 hL t ht
+      · simpa using (coreKind_excl (hVk t ht)).1
+    simp only [hany, Bool.false_eq_true, if_false]
+    subst hMh
+    obtain ⟨l, c1, B, h1, h2⟩ := rt_lock_then_ws q p s hpl0 L pre h (r ++ post) (by rw [hts]; simp) hc hL bpre hhb
+      (coreKind_excl hhk).2.2.1
+    simp only [bind, StateT.bind, h1, h2]
+    by_cases htx : q.val.isText = true
+    · -- a text value that starts with a word: no value tokens
+      have hhw : h.kind = .word := by
+        cases hv : q.val with
+        | num n => rw [hv] at htx; simp [AVal.isText] at htx
+        | range lo hi => rw [hv] at htx; simp [AVal.isText] at htx
+        | text lf =>
+          rw [hv] at hM
+          simp only [AQty.advSafe, hu, hv, Option.isSome_none, Bool.false_or] at hadv
+          simp only [spellCore] at hM
+          cases lf with
+          | nil => simp [Spells] at hM
+          | cons u lf' =>
+            obtain ⟨t', r', he, hk, -, -⟩ := hM.cons_inv
+            simp only [List.cons.injEq] at he
+            rw [he.1, hk]
+            simpa using hadv
+      have h3 := consumeWhile_split (fun k => k != .word) ({ s with cur := (L ++ pre).length } : BP α)
+        (L ++ pre) [] (h :: r ++ post) (by rw [hts]; simp) rfl (by simp)
+        (by intro t ht'; simp at ht'; subst ht'; simp [hhw])
+      simp only [h3, List.getLast?_nil]
+      exact ⟨_, rfl⟩
+    · have htx' : q.val.isText = false := by simpa using htx
+      have hnw : ∀ t ∈ h :: r ++ post, (t.kind != TK.word) = true := by
+        intro t ht'
+        rcases List.mem_append.mp ht' with ht' | ht'
+        · have := hM.all_of (fun k _ => k ≠ TK.word) (rt_spellCore_noword q.val p.v hpv htx') t ht'
+          simpa using this
+        · have := bpost t ht'
+          simp only [BlankT, isWsComment, Bool.or_eq_true, beq_iff_eq] at this
+          rcases this with (h' | h') | h' <;> simp [h']
+      have h3 := consumeWhile_split (fun k => k != .word) ({ s with cur := (L ++ pre).length } : BP α)
+        (L ++ pre) (h :: r ++ post) [] (by rw [hts]; simp) rfl hnw (by simp)
+      simp only [h3]
+      cases hgl : (h :: r ++ post).getLast? with
+      | none => simp at hgl
+      | some l' =>
+        dsimp only
+        by_cases hk : (l'.kind != TK.ws) = true
+        · simp only [hk, if_true]
+          exact ⟨_, rfl⟩
+        · have hne : (List.dropWhile (fun t => t.kind == TK.ws || t.kind == TK.blockComment)
+              (h :: r ++ post).reverse).reverse.isEmpty = false := by
+            have := rtrim_ne_nil (fun t => t.kind == TK.ws || t.kind == TK.blockComment) (h :: r ++ post) h (by simp)
+              (by simp only [isWsComment, Bool.or_eq_false_iff] at hhb; simp [hhb.1.1, hhb.2])
+            cases hx : (List.dropWhile (fun t => t.kind == TK.ws || t.kind == TK.blockComment)
+              (h :: r ++ post).reverse).reverse with
+            | nil => exact absurd hx this
+            | cons _ _ => rfl
+          have h4 := consumeRest_split
+            ({ s with cur := (L ++ pre).length + (h :: r ++ post).length } : BP α) s.toks []
+            (by simp) (by rw [hts]; simp only [List.length_append]; omega)
+          simp only [hk, if_false, hne, Bool.false_eq_true, StateT.bind, h4, List.isEmpty_nil, if_true]
+          exact ⟨_, rfl⟩
+
+/-- `parse_quantity` on the tokens between the braces: the intended quantity, the outer parser
+    handed back exactly as it was (no event pushed, no panic, same cursor) -/
+theorem rt_parseQuantity (q : AQty) (p : QPad) (outer : BP α) (hq : q.ok outer.cs = true) (hp : p.ok outer.cs = true)
+    (hr : q.val.isRange = true → outer.ext.has Gen.EXT_RANGE_VALUES = true)
+    (hadv : outer.ext.has Gen.EXT_ADVANCED_UNITS = true → q.advSafe = true)
+    (ts : List Tok) (hs : Spells ts (spellQty q p)) (hrun : RunAt (baseOff ts) ts) :
+    ∃ vspan lspan unitT sep,
+      parseQuantity ts outer = (⟨⟨⟨⟨⟨q.val.denote, vspan⟩, lspan⟩, unitT⟩, tokensSpan ts⟩, sep⟩, outer) ∧
+      lspan.isSome = q.lock ∧ unitT.map (fun t => t.trimmed outer.cs) = q.unit.map leafText ∧
+      sep.isSome = q.unit.isSome := by
+  obtain ⟨vspan, lspan, unitT, sep, hreg, h1, h2, h3⟩ :=
+    rt_parseRegularQuantity q p ({ outer with toks := ts, cur := 0 } : BP α) hq hp hr ts hs rfl rfl hrun
+  refine ⟨vspan, lspan, unitT, sep, ?_, h1, h2, h3⟩
+  have hne : ts.isEmpty = false := by
+    obtain ⟨L, pre, M, post, U, hts, hL, hpre, hM, hpost, hU⟩ := rt_qty_decomp hs
+    simp only [AQty.ok, Bool.and_eq_true] at hq
+    simp only [QPad.ok, Bool.and_eq_true] at hp
+    obtain ⟨-, -, -, h, r, hMh, -, -⟩ := rt_val_facts hq.1 hp.1.1.2 hpre hM hpost
+    rw [hts, hMh]; simp
+  unfold parseQuantity
+  simp only [hne, Bool.false_eq_true, if_false, bind, StateT.bind, get, getThe, MonadStateOf.get, StateT.get, set,
+    StateT.set, hasExt_run, pure, StateT.pure]
+  by_cases hext : outer.ext.has Gen.EXT_ADVANCED_UNITS = true
+  · obtain ⟨c, hc⟩ := rt_parseAdvancedQuantity_none q p ({ outer with toks := ts, cur := 0 } : BP α) hq hp
+      (hadv hext) ts hs rfl rfl
+    have hw := withRecover_none _ _ _ hc
+    simp only [hext, if_true, hw, hreg, modify, modifyGet, MonadStateOf.modifyGet, StateT.modifyGet, pure, StateT.pure]
+  · simp only [hext, Bool.false_eq_true, if_false, hreg, modify, modifyGet, MonadStateOf.modifyGet,
+      StateT.modifyGet, pure, StateT.pure]
+
 end Cook
